@@ -540,7 +540,9 @@ def check_C57(rep):
                 ops += class_vendor_ops(rng)[:2]
             ops += resolve_auto(data_ops(rng, maxpkt, buf, nops), rng)
             sc = {"rng": rng, "ops": ops, "gap": rng.choice([0, 0.2, 0.5]), "stall": rng.choice([0, 0.2, 0.5]),
-                  "rx_p": rng.choice([1.0, 0.7, 0.3]), "tx_p": rng.choice([1.0, 0.6, 0.2])}
+                  "rx_p": rng.choice([1.0, 0.7, 0.3]), "tx_p": rng.choice([1.0, 0.6, 0.2]),
+                  # half of the schedules may overrun the OUT buffer (packets then have to be NAKed, never half-taken)
+                  "avoid_overrun": i % 2 == 0}
             tr = bench.run(sc)
             items[maxpkt].append((tr, {"maxpkt": maxpkt, "buf": buf, "origin": "random", "n": i}))
 
@@ -574,7 +576,7 @@ def check_C57(rep):
     #     around the end of the next OUT data packet / its handshake
     for maxpkt in ((2, 8) if quick else (2, 8, 64)):
         bench = benches[maxpkt]
-        for plen in sorted({maxpkt - 1, 1}):
+        for plen in sorted({maxpkt, maxpkt - 1, 1}):
             ops = [("rx_p", 0.0)]
             tog = 0
             val = 3
@@ -593,6 +595,33 @@ def check_C57(rep):
             tr = bench.run(sc)
             items[maxpkt].append((tr, {"maxpkt": maxpkt, "buf": 2 * maxpkt - 1,
                                        "origin": "out-race-sweep/len=%d" % plen, "n": 0}))
+
+    # 3d. overrun family: with the consumer shut the buffer is filled exactly (MaxPkt + MaxPkt-1 bytes), then a packet that
+    #     exceeds the free space by k bytes arrives (must be refused whole), the consumer opens, the host retries.
+    for maxpkt in ((8,) if quick else (8, 64)):
+        bench = benches[maxpkt]
+        ops = []
+        val = 9
+        tog = 0
+        for k in (1, 2, 3, maxpkt // 2, maxpkt):
+            for fill in ((maxpkt, maxpkt - 1), (maxpkt - 1, maxpkt - 2), (maxpkt, maxpkt // 2)):
+                ops.append(("rx", 0))
+                for n in fill:
+                    ops.append(("out_race", tog, [(val + j) % 256 for j in range(n)], 100000))
+                    tog ^= 1
+                    val += 13
+                free = (2 * maxpkt - 1) - sum(fill)
+                over = [(val + j) % 256 for j in range(min(maxpkt, free + k))]
+                val += 17
+                ops.append(("out_race", tog, over, 100000))            # does not fit: NAK expected, nothing taken
+                ops.append(("rx", 4 * maxpkt))                           # consumer drains
+                ops.append(("out_race", tog, over, 0))                 # host retry: now it fits
+                tog ^= 1
+                ops.append(("rx", 4 * maxpkt))
+        sc = {"rng": random.Random("%s-overrun-%d" % (rep.seed, maxpkt)), "ops": ops,
+              "gap": 0.0, "stall": 0.0, "rx_p": 0.0, "tx_p": 1.0, "avoid_overrun": False}
+        tr = bench.run(sc)
+        items[maxpkt].append((tr, {"maxpkt": maxpkt, "buf": 2 * maxpkt - 1, "origin": "overrun-family", "n": 0}))
 
     # 4. TLC decides
     for maxpkt, its in items.items():
